@@ -48,7 +48,7 @@ class WriterModel:
             return
         self.ctor = dict(agg[3])
         self.f_inner = [f_['name'] for f_ in fields if f_['ty'].startswith(BUFW + '<')]
-        self.f_le = [f_['name'] for f_ in fields if f_['ty'].replace(' ', '') in ('alloc::vec::Vec<u8>',)]
+        self.f_le = [f_['name'] for f_ in fields if f_['ty'].replace(' ', '') in ('alloc::vec::Vec<u8>', 'alloc::boxed::Box<[u8]>', 'alloc::sync::Arc<[u8]>', 'alloc::string::String', 'alloc::boxed::Box<str>')]
         usz = [f_['name'] for f_ in fields if f_['ty'] == 'usize']
         self.f_written = [n for n in usz if self.ctor.get(n) == ('const', 'usize', '0', None)]
         self.f_cap = [n for n in usz if self.ctor.get(n) == ('param', 2)]
@@ -290,7 +290,8 @@ def rule_M3(m, rep, rid='M3'):
         if not err_e:
             rep.bad(rid, 'flush-error-examined', body.where(fbi), 'the result of BufWriter::flush is not examined')
             continue
-        _, r = freach(T, err_e)
+        fct = norm(T.call_term(fbi))
+        _, r = freach(T, err_e, known={fct: 'Err'})
         late = sorted(r & wr)
         st = [(b, i) for b, i, v in stores if b in r]
         if late:
@@ -301,9 +302,8 @@ def rule_M3(m, rep, rid='M3'):
                     '`%s` is modified after BufWriter::flush failed (buffer still holds the lines)' % m.f_written)
         else:
             rep.good(rid, 'failed-flush-stops', body.where(fbi), 'no write and no store to %s after a failed flush' % m.f_written)
-        rts = ret_terms(T, err_e)
-        fct = norm(T.call_term(fbi))
-        good = all(_is_err_of(rt, fct) for rt in rts) and rts
+        rts = ret_terms(T, err_e, known={fct: 'Err'})
+        good = all(_is_err_of(rt, fct) or rt == fct for rt in rts) and rts
         if good:
             rep.good(rid, 'failed-flush-returns-its-error', body.where(fbi), 'returns Err(e) with e from BufWriter::flush')
         else:
@@ -547,13 +547,13 @@ def rule_M8(m, rep, rid='M8'):
     rep.ob(rid, 'reset-after-success', every and not nonzero, body.where(fbi),
            'written = 0 on every path after a successful flush' if every and not nonzero else
            'after a successful flush written is not reset to 0 on every path (other stores: %s)' % nonzero)
-    rts = ret_terms(T, err_e)
     ct = norm(T.call_term(fbi))
-    okk = bool(rts) and all(_is_err_of(rt, ct) for rt in rts)
+    rts = ret_terms(T, err_e, known={ct: 'Err'})
+    okk = bool(rts) and all(_is_err_of(rt, ct) or rt == ct for rt in rts)
     rep.ob(rid, 'flush-returns-inner-error', okk, body.where(fbi),
            'Err edge returns the BufWriter error' if okk else 'flush returns %s on failure' % [fmt(x) for x in rts])
-    rto = ret_terms(T, ok_e)
-    okk = bool(rto) and all(rt[0] == 'adt' and rt[2] == 'Ok' for rt in rto)
+    rto = ret_terms(T, ok_e, known={ct: 'Ok'})
+    okk = bool(rto) and all((rt[0] == 'adt' and rt[2] == 'Ok') or rt == ct for rt in rto)
     rep.ob(rid, 'flush-returns-ok', okk, body.where(fbi), 'Ok edge returns Ok(())' if okk else 'returns %s' % [fmt(x) for x in rto])
 
 
@@ -586,7 +586,21 @@ def rule_M9(m, rep, rid='M9'):
 
 def rule_M10(m, rep, rid='M10'):
     """Frame: only write/flush/with_ending touch written/capacity/inner/line_ending mutably."""
-    allowed = {m.write.path, m.flush.path, m.with_ending.path}
+    from .qmodel import private_region
+    allowed = set()
+    for root in (m.write, m.flush, m.with_ending):
+        allowed |= private_region(m.cad, root, MLW)
+    # helpers shared by write and flush
+    changed = True
+    while changed:
+        changed = False
+        for x in m.cad.all_bodies:
+            if x.path in allowed or x.j.get('reachable') or not (x.impl_self and type_head(x.impl_self) == MLW):
+                continue
+            callers = set(y.path for y in m.cad.all_bodies for _, t in y.calls() if t.get('resolved') == x.path)
+            if callers and callers <= allowed:
+                allowed.add(x.path)
+                changed = True
     roles = {m.f_written, m.f_cap, m.f_inner, m.f_le}
     n = 0
     offenders = []
